@@ -130,6 +130,12 @@ class ExprMixin:
             if name in c[0]:
                 return c[0][name]
             c = c[1]
+        if name in self.ghost_defaults:
+            g = st.ghost.get(name)
+            if g is None:
+                g = self.ghost_defaults[name](self)
+                st.ghost[name] = g
+            return g
         mod = st.ghost.get("__module__")
         if mod is not None and name in mod.t.__dict__:
             return self.lift(mod.t.__dict__[name])
